@@ -1468,8 +1468,9 @@ func (db *DB) verifyAndSyncWithExecutor(ctx context.Context, checkpointing bool,
 	}
 
 	// The copy ran to the end of the WAL (it was not cut short by the byte
-	// budget): every frame the read transaction covers has been copied.
-	if !result.limited {
+	// budget, or the budget was used up exactly at the end of the WAL file):
+	// every frame the read transaction covers has been copied.
+	if !result.limited || result.syncedToWALEnd {
 		exec.state.walUncopiedSinceInit = false
 	}
 
